@@ -16,7 +16,7 @@ import (
 // C01 — encode → read round trip preserves every record.
 
 const c01Rule = "rapid draws (Go struct type as data: reflect.StructOf types 80% / catalogue of named types through the real Encoder[T] 20%; " +
-	"0-8 correlated records; compression; block size; flush pattern; by-value or by-pointer ReadFile target); oracle: ReadFile returns nil, " +
+	"0-8 correlated records; compression; block size; flush pattern; by-value or by-pointer ReadFile target; the file presented through bytes.Reader, a small bufio.Reader or a reader returning 1-7 bytes per call); oracle: ReadFile returns nil, " +
 	"calls back once per record in order and Abs(out[i]) matches Abs(in[i]) (documented normalisations only); " +
 	"non-trivial = >=2 records AND (>=2 file blocks OR a field null in record i+1 and non-null in record i) AND the type has a nested struct/slice/map/pointer; distinct by case JSON hash"
 
@@ -25,6 +25,10 @@ func init() { registerReplay("c01", func(c encCase) error { _, _, err := runC01(
 // readBack reads a file into typ and returns the denotation of every record
 // delivered, computed inside the callback (the target is reused).
 func readBack(file []byte, ts spec.TypeSpec, typ reflect.Type, byPointer bool) ([]spec.AbsVal, error) {
+	return readBackFrom(bytes.NewReader(file), ts, typ, byPointer)
+}
+
+func readBackFrom(rd avro.Reader, ts spec.TypeSpec, typ reflect.Type, byPointer bool) ([]spec.AbsVal, error) {
 	var out interface{}
 	if byPointer {
 		out = reflect.New(typ).Interface()
@@ -33,7 +37,7 @@ func readBack(file []byte, ts spec.TypeSpec, typ reflect.Type, byPointer bool) (
 	}
 	var got []spec.AbsVal
 	var skipErr error
-	err := avro.ReadFile(bytes.NewReader(file), out, func(val unsafe.Pointer, rb *avro.ResourceBank) error {
+	err := avro.ReadFile(rd, out, func(val unsafe.Pointer, rb *avro.ResourceBank) error {
 		v := reflect.NewAt(typ, val).Elem()
 		got = append(got, spec.Abs(ts, false, v))
 		if e := skippedFieldsZero(ts, v, ""); e != nil && skipErr == nil {
@@ -78,7 +82,10 @@ func runC01(c encCase) (bool, []string, error) {
 	}
 	typ := spec.Build(c.Type)
 	nt, labels := encLabels(c, in, countBlocks(file))
-	out, err := readBack(file, c.Type, typ, c.ByPointer)
+	if c.Reader != 0 {
+		labels = append(labels, "short_or_buffered_reader")
+	}
+	out, err := readBackFrom(makeReader(c.Reader, file), c.Type, typ, c.ByPointer)
 	if err != nil {
 		return nt, labels, err
 	}
